@@ -272,7 +272,8 @@ def run_apalache(spec: str, *, init: str, inv: str, length: int, next_: str = 'N
                f'--length={length}', f'--out-dir={scratch}/out', f'--run-dir={scratch}/run',
                os.path.join(SPEC_DIR, f'{spec}.tla')]
         penv = dict(os.environ)
-        penv.pop('JAVA_TOOL_OPTIONS', None)
+        penv['JAVA_TOOL_OPTIONS'] = f'-Djava.io.tmpdir={scratch}'      # (SANY's unpacked standard modules)
+        penv['TMPDIR'] = scratch
         t0 = time.time()
         try:
             p = subprocess.run(cmd, cwd=scratch, env=penv, capture_output=True, text=True, timeout=timeout)
